@@ -54,4 +54,31 @@ LEVEL = {
                 note=BOOK_NOTE),
 }
 
+ENV_NOTE = (BOOK_NOTE + " Env/MarketEnv/Market are modelled over the book model; the generator model (SplitMix64 + Xoroshiro128** + "
+            "rand 0.8.5 gen_range/shuffle) is a transcription validated bit-for-bit on every run (the predicted schedule must equal the "
+            "schedule of the real shuffle). Stand-alone real OrderBook shadows give a model-free oracle.")
+
+LEVEL.update({
+    "C08": dict(engine="book", design_ref="DESIGN.md 6/C08",
+                technique="Lean 4 theorems (step = replay of a permutation of the queue at start+i; per-asset plain-book replay via the projection law) + exact schedule prediction and real plain-book shadow replay",
+                text="step_is_replay, step_is_plain_book_replay, step_processes_queue_once (List.Perm), batch_times, step_post for all environments, batches and generator states. Per run: the Lean generator model predicts the real schedule exactly; real stand-alone OrderBooks replay the batch in that order at those times and must equal the environment's books; clock/counter audits.",
+                note=ENV_NOTE),
+    "C10": dict(engine="book", design_ref="DESIGN.md 6/C10",
+                technique="Lean 4 theorems (frame lemmas for submissions, cache invariant) + before/after observation audit on the real environments",
+                text="env_place_invisible, env_cancel_modify_invisible, views_depend_on_sides, cache_inv (invariant over every operation) for all states; per run every submission is audited on the real Env/MarketEnv: nothing but one New order may appear, cache equals live level-2 after each step.",
+                note=ENV_NOTE),
+    "C11": dict(engine="book", design_ref="DESIGN.md 6/C11",
+                technique="Lean 4 proof by induction over steps (record well-formedness, entry lemmas) + audit of every series against the live book on real runs",
+                text="append_wf / step_allwf (after k steps every series has k entries), append_entries (entry = the matching field, bid from bid, level i from level i), step_records; per run: lengths, append-only, last entries vs live book values, per-step traded volume vs trade log (by log delta and by timestamp) on the real environments for several level counts.",
+                note=ENV_NOTE),
+    "C14": dict(engine="book", design_ref="DESIGN.md 6/C14",
+                technique="Lean 4 theorems (locality, fan-out, projection law over all operation sequences) + real stand-alone shadow books in lock-step",
+                text="market_op_local, market_fanout, market_queries_pointwise, market_projection: for every operation sequence each asset's book equals a stand-alone book run on the projected operations (proved, unbounded). Per run: Market<A,L> and MarketEnv<A,L> (A=1..4, per-asset ticks) vs real stand-alone OrderBooks and all-asset query cross-checks.",
+                note=ENV_NOTE),
+    "C15": dict(engine="book", design_ref="DESIGN.md 6/C15",
+                technique="Lean 4 theorems (shuffle is a permutation, natural in the items, function of the generator state) + exact per-seed permutation prediction against the real shuffle",
+                text="shuffle_perm, shuffle_natural (the position permutation does not depend on what the instructions are), shuffle_by_positions, step_deterministic for all lists and generator states. Per run the model's predicted permutation equals the real one for every seed and batch size and the generator must have advanced by exactly one shuffle. PARTIAL: uniformity (bijection draw-vectors <-> permutations, n! count) not yet proved; PRNG statistical quality is trusted.",
+                note=ENV_NOTE),
+})
+
 NOT_YET = {}
